@@ -377,10 +377,24 @@ class C05(RenderProp):
             "&attributes(obj) spreads (strings, booleans, class+id). Oracle: golang.org/x/net/html tokenizer reads the first tag back; its (name, value) list must equal the "
             "specification's list, exactly one start tag, text intact. Non-trivial: >= 2 attributes; distinct by case.")
 
+    _orders = {}
+
     def compare(self, case, impl, model, spec):
         corr, _, detail = RenderProp.compare(self, case, impl, model, None)
         prop = None
         i = out_of(impl)
+        if case.get("bucket") == "literal-spread" and i[0] == "ok":
+            # the order in which a spread object's attributes appear depends on the object's contents only: the same object must give
+            # the same order whether or not Object.keys() has looked at it before
+            starts = [t for t in impl.get("tok", []) if t[0] == "S"] if "tok" in impl else None
+            import re
+            names = [a[0] for a in starts[0][2]] if starts else re.findall(r'\s([a-zA-Z-]+)="', i[1])
+            key = "lit"
+            first = self._orders.setdefault(key, names)
+            prop = first == names
+            if not prop:
+                detail += " | the same object literal was spread as %r and as %r" % (first, names)
+            return corr, prop, detail
         if isinstance(spec, dict) and spec.get("class") == "ok":
             if i[0] != "ok":
                 prop = False
